@@ -159,7 +159,7 @@ func judgeVersion(s *peers.Session, c verCase) *fail {
 }
 
 func genVersionString(rt *rapid.T) []byte {
-	switch rapid.IntRange(0, 11).Draw(rt, "vk") {
+	switch rapid.IntRange(0, 13).Draw(rt, "vk") {
 	case 0:
 		return []byte("9P2000.L")
 	case 1:
@@ -187,6 +187,15 @@ func genVersionString(rt *rapid.T) []byte {
 		return []byte(rapid.SampledFrom([]string{"9P2000", "9P2000.u", "9P2000.U", "9P", "unknown", "", "9P2000.u.Google.1", "9P2000.Google.1", "9P2000.L.Goog.1"}).Draw(rt, "dial"))
 	case 8: // arbitrary bytes
 		return rapid.SliceOfN(rapid.Byte(), 0, 40).Draw(rt, "raw")
+	case 12: // any run of decimal digits, most of them beyond 32 bits
+		n := rapid.IntRange(8, 24).Draw(rt, "nd")
+		b := []byte("9P2000.L.Google.")
+		for i := 0; i < n; i++ {
+			b = append(b, byte('0'+rapid.IntRange(0, 9).Draw(rt, "d")))
+		}
+		return b
+	case 13: // any 64-bit number
+		return []byte(fmt.Sprintf("9P2000.L.Google.%d", rapid.Uint64Range(1<<31, ^uint64(0)).Draw(rt, "u64")))
 	default: // mutation of a valid string
 		b := []byte(fmt.Sprintf("9P2000.L.Google.%d", rapid.IntRange(0, 12).Draw(rt, "n")))
 		if rapid.Bool().Draw(rt, "plain") {
